@@ -56,22 +56,22 @@ type ObjInfo struct {
 
 // Event is one entry of the server's call log.
 type Event struct {
-	Seq      int    `json:"seq"`
-	Actor    string `json:"actor"`
-	Idx      int    `json:"idx"` // call index within the actor's current reconcile (1-based)
-	Verb     string `json:"verb"`
-	Sub      string `json:"sub"`
-	Group    string `json:"group"`
-	Kind     string `json:"kind"`
-	NS       string `json:"ns"`
-	Name     string `json:"name"`
-	DryRun   bool   `json:"dry"`
-	Manager  string `json:"mgr"`
-	Outcome  string `json:"outcome"`  // ok | notfound | exists | conflict | invalid | denied | error | dropped
-	Injected string `json:"injected"` // "" | error | conflict | crashBefore | crashAfter
-	Applied  bool   `json:"applied"`  // the store changed (or would have, for dry-run)
-	Noop     bool   `json:"noop"`     // a write that left the object byte-identical
-	Removed  bool   `json:"removed"`  // the object disappeared from the store
+	Seq      int     `json:"seq"`
+	Actor    string  `json:"actor"`
+	Idx      int     `json:"idx"` // call index within the actor's current reconcile (1-based)
+	Verb     string  `json:"verb"`
+	Sub      string  `json:"sub"`
+	Group    string  `json:"group"`
+	Kind     string  `json:"kind"`
+	NS       string  `json:"ns"`
+	Name     string  `json:"name"`
+	DryRun   bool    `json:"dry"`
+	Manager  string  `json:"mgr"`
+	Outcome  string  `json:"outcome"`  // ok | notfound | exists | conflict | invalid | denied | error | dropped
+	Injected string  `json:"injected"` // "" | error | conflict | crashBefore | crashAfter
+	Applied  bool    `json:"applied"`  // the store changed (or would have, for dry-run)
+	Noop     bool    `json:"noop"`     // a write that left the object byte-identical
+	Removed  bool    `json:"removed"`  // the object disappeared from the store
 	Pre      ObjInfo `json:"pre"`
 	Post     ObjInfo `json:"post"`
 
@@ -95,15 +95,16 @@ type Decision int
 
 // Decisions.
 const (
-	Proceed     Decision = iota
-	FailError            // 500, no effect, reconcile continues
-	FailConflict         // 409, no effect (writes only), reconcile continues
-	CrashBefore          // no effect, the actor is dead for the rest of the reconcile
-	CrashAfter           // effect applied, the actor is dead for the rest of the reconcile
+	Proceed      Decision = iota
+	FailError             // 500, no effect, reconcile continues
+	FailConflict          // 409, no effect (writes only), reconcile continues
+	CrashBefore           // no effect, the actor is dead for the rest of the reconcile
+	CrashAfter            // effect applied, the actor is dead for the rest of the reconcile
+	CacheMiss             // reads only: 404 although the object exists (an informer cache that has not seen it yet)
 )
 
 func (d Decision) String() string {
-	return [...]string{"", "error", "conflict", "crashBefore", "crashAfter"}[d]
+	return [...]string{"", "error", "conflict", "crashBefore", "crashAfter", "cacheMiss"}[d]
 }
 
 // Call describes a call about to be served.
